@@ -293,6 +293,27 @@ theorem C01_pointset_natural (core : ClipCore) (hcore : CoreSpec core.bool) (rec
   rw [← member_eq_memberNat recv p hnr, ← member_eq_memberNat arg p hna]
   exact C01_pointset core hcore recv arg op p hvr hva hgp hor hoa
 
+/-! ## inclusion–exclusion, pointwise -/
+
+/-- indicator -/
+def ind (b : Bool) : Int := if b then 1 else 0
+
+/-- **C01, inclusion–exclusion (pointwise form).** At every point off both boundaries the indicator
+functions of the four results satisfy `1[A∪B] + 1[A∩B] = 1[A] + 1[B]`, `1[A∖B] = 1[A] − 1[A∩B]`,
+`1[AΔB] = 1[A∪B] − 1[A∩B]`; integrating over the plane (not formalised: the boundaries are null
+sets) gives the area identities of the statement, which T2 checks numerically on `Polygonal.Area()`. -/
+theorem C01_inclusion_exclusion_pointwise (core : ClipCore) (hcore : CoreSpec core.bool) (A B : Operand) (p : P)
+    (hvr : Valid A = true) (hva : Valid B = true) (hgp : GeneralPosition A B = true)
+    (hor : offBoundary A p = true) (hoa : offBoundary B p = true) :
+    ind (memberRes (api core A B .union) p) + ind (memberRes (api core A B .inter) p)
+      = ind (member A p) + ind (member B p) ∧
+    ind (memberRes (api core A B .diff) p) = ind (member A p) - ind (memberRes (api core A B .inter) p) ∧
+    ind (memberRes (api core A B .xor) p)
+      = ind (memberRes (api core A B .union) p) - ind (memberRes (api core A B .inter) p) := by
+  rw [C01_pointset core hcore A B .union p hvr hva hgp hor hoa, C01_pointset core hcore A B .inter p hvr hva hgp hor hoa,
+    C01_pointset core hcore A B .diff p hvr hva hgp hor hoa, C01_pointset core hcore A B .xor p hvr hva hgp hor hoa]
+  cases member A p <;> cases member B p <;> decide
+
 /-! ## clause 2: closed rings -/
 
 theorem closeRing_closed (r : Ring) : closeRing r ≠ [] ∧ (closeRing r).head? = (closeRing r).getLast? := by
@@ -392,6 +413,13 @@ example : Valid (.box ⟨0, 0⟩ ⟨2, 2⟩) = true ∧
     Valid (.multi [[[⟨1, 1⟩, ⟨3, 1⟩, ⟨3, 3⟩, ⟨1, 3⟩]], [[⟨5, 5⟩, ⟨6, 5⟩, ⟨5, 6⟩]]]) = true ∧
     GeneralPosition (.box ⟨0, 0⟩ ⟨2, 2⟩) (.multi [[[⟨1, 1⟩, ⟨3, 1⟩, ⟨3, 3⟩, ⟨1, 3⟩]], [[⟨5, 5⟩, ⟨6, 5⟩, ⟨5, 6⟩]]]) = true := by
   decide +kernel
+
+/-- the shape of `CoreSpec` is consistent: its XOR clause is met, for all inputs, by concatenating the
+contour lists (even–odd membership is additive); no instance for the other operations is constructed
+— that would be a verified clipper — so the non-vacuity of `CoreSpec` as a whole rests on the
+per-case oracle verdicts of the correspondence run -/
+example (s c : Contours) (p : P) : inside (s ++ c) p = opBool .xor (inside s p) (inside c p) := by
+  simp [inside_append, opBool]
 
 /-- the fixed glue on the same witness: both squares come back (for every sweep core) -/
 example (core : ClipCore) : api core unitSq farSq .xor = some (.poly
